@@ -14,6 +14,9 @@ mod ops_walk;
 mod ops_imports;
 mod ops_exports;
 mod ops_dirs;
+mod ops_json;
+mod ops_iter;
+mod ops_res;
 // MOD-MARKER (add `mod ops_<m>;` above this line)
 
 use std::cell::RefCell;
@@ -35,6 +38,7 @@ fn dispatch(st: &mut State, line: &str) -> String {
 	None
 		.or_else(|| ops_pure::dispatch(st, fam, rest))
 		.or_else(|| ops_img::dispatch(st, fam, rest))
+		.or_else(|| ops_json::dispatch(st, fam, rest))
 		.or_else(|| ops_typed::dispatch(st, fam, rest))
 		.or_else(|| ops_rich::dispatch(st, fam, rest))
 		.or_else(|| ops_convert::dispatch(st, fam, rest))
@@ -45,6 +49,8 @@ fn dispatch(st: &mut State, line: &str) -> String {
 		.or_else(|| ops_imports::dispatch(st, fam, rest))
 		.or_else(|| ops_exports::dispatch(st, fam, rest))
 		.or_else(|| ops_dirs::dispatch(st, fam, rest))
+		.or_else(|| ops_iter::dispatch(st, fam, rest))
+		.or_else(|| ops_res::dispatch(st, fam, rest))
 		// DISPATCH-MARKER (add `.or_else(|| ops_<m>::dispatch(st, fam, rest))` above this line)
 		.unwrap_or_else(|| "bad-op".to_string())
 }
